@@ -53,6 +53,9 @@ def cases(tier, seed):
     devs = ["G1", "G3"] if quick else ["G1", "G2", "G3"]
     for d, drive, scr, u in itertools.product(devs, ("field", "current", "both"), (False,) if quick else (False, True), ("nm", "mm")):
         out.append(dict(fam="run", dev=d, drive=drive, screening=scr, units=u))
+    # time-dependent fields (slow: 0.3 % per step, fast: 8 % per step) and callable currents, stated in each unit system
+    for d, drive, u in itertools.product(devs[:1] if quick else devs, ("ramp_slow", "ramp_fast", "callable_current"), ("nm", "mm")):
+        out.append(dict(fam="run", dev=d, drive=drive, screening=False, units=u))
     if quick:
         for u in ("nm", "mm"):
             out.append(dict(fam="run", dev="G1", drive="both", screening=True, units=u))
@@ -74,6 +77,14 @@ def _problem(dev_name, drive, units, screening):
     dev = ref if units == "um" else zoo.with_mesh_of(ref, dev_name, units, lam=lam)
     s = {"um": 1.0, "nm": 1e3, "mm": 1e-3}[units]  # value multiplier for both field and current
     kw = {}
+    if drive in ("ramp_slow", "ramp_fast"):
+        # coordinates arrive in the device's length units, the result is in field_units * length_units
+        kw["applied_vector_potential"] = tdgl.Parameter(_ramp_field, time_dependent=True, B=0.4 * s, rate=(0.2 if drive == "ramp_slow" else 5.0))
+    if drive == "callable_current":
+        names = TERMS[dev_name]
+        base = {2: [0.8, -0.8], 3: [0.3, 0.5, -0.8]}[len(names)]
+        kw["applied_vector_potential"] = 0.2 * s
+        kw["terminal_currents"] = _CurrentRamp(names, [b * s for b in base])
     if drive in ("field", "both"):
         kw["applied_vector_potential"] = 0.4 * s
     if drive in ("current", "both"):
@@ -81,6 +92,19 @@ def _problem(dev_name, drive, units, screening):
         base = {2: [0.8, -0.8], 3: [0.3, 0.5, -0.8]}[len(names)]
         kw["terminal_currents"] = {n: b * s for n, b in zip(names, base)}
     return dev, kw, (lu, fu, cu)
+
+
+def _ramp_field(x, y, z, *, t, B, rate):
+    b = B * (1.0 + rate * t)
+    return np.stack([-b * y / 2, b * x / 2, np.zeros_like(x)], axis=1)
+
+
+class _CurrentRamp:
+    def __init__(self, names, base):
+        self.names, self.base = names, base
+
+    def __call__(self, t):
+        return {n: b * (0.5 + 2.0 * t) for n, b in zip(self.names, self.base)}
 
 
 def run_run(case):
